@@ -52,7 +52,7 @@ def evaluate(case):
                 res.v(f"year-mismatch:{k}", f"{c!r} year={c.year!r} metadata.year={my!r}")
             if isinstance(c.year, int) and min(abs(c.year - b) for b in (1600, TODAY + 1)) <= 1:
                 nontrivial = True
-        cand = list(c.exact_editions or c.variation_editions)
+        cand = list(dict.fromkeys(c.exact_editions or c.variation_editions))  # distinct candidate editions
         g = c.edition_guess
         if len(cand) >= 2:
             nontrivial = True
@@ -120,9 +120,31 @@ def _enum_items(tier):
     return items
 
 
+@st.composite
+def _ref_overlap_doc(draw):
+    """A named full citation, then 'Party at N' directly in front of a citation whose reporter string has several
+    candidate editions (with or without a year): the reference overlaps the following citation's full span."""
+    a, b = draw(st.sampled_from(["Kalomi", "Foo", "Zenqua", "Roe"])), draw(st.sampled_from(["Rentov", "Bar", "Drifel", "Wade"]))
+    amb = st.sampled_from(inv.multi_candidate_strings())
+    n = st.integers(1, 999).map(str)
+    parts = [f"{a} v. {b}, {draw(n)} {draw(st.sampled_from(['U.S.', 'F.2d', 'F.3d']))} {draw(n)} ({draw(st.integers(1950, 2010))})."]
+    for _ in range(draw(st.integers(1, 3))):
+        k = draw(st.integers(0, 4))
+        party = draw(st.sampled_from([a, b]))
+        year = draw(st.sampled_from(["", "", f" ({draw(st.integers(1800, 2020))})"]))
+        if k < 3:
+            parts.append(f"{draw(st.sampled_from(['', 'In ', 'See ']))}{party} at {draw(n)}, {draw(n)} {draw(amb)} {draw(n)}{year}.")
+        elif k == 3:
+            parts.append(f"{party} at {draw(n)}.")
+        else:
+            parts.append(f"{draw(n)} {draw(amb)} {draw(n)}{year}.")
+    return {"text": " ".join(parts), "tokenizer": "ac"}
+
+
 def phases(tier):
     n = 8000 if tier == "quick" else 500000
     return [
         Phase("boundary-years", "enum", items=lambda: _enum_items(tier), exhaustive=True),
         Phase("docs", "gen", strategy=lambda: legal.document(hostile=True).map(lambda t: {"text": t, "tokenizer": "ac"}), n=n),
+        Phase("reference-overlaps-ambiguous", "gen", strategy=_ref_overlap_doc, n=n // 4),
     ]
